@@ -24,15 +24,41 @@ Quantifiers.  Every well-formed raw vector of `usize` length; every support sati
 (built, or loaded from bytes the library wrote); every argument `i`, `r`, `x`, `n`, `k : Nat` (all `usize`
 values, including `usize::MAX`); every finite call history on iterators; both modes.
 
-PARTIAL (what this file does not cover).  The property ranges over ALL structures; this file covers the bit
-primitives, the plain bitvector with its rank / select supports, `OneIter<T>`, the two-cursor iterators, the
-integer vector's item access and the memory-mapped views' constructors.  The sparse, run-length and
-wavelet-matrix structures have their `= ok …` theorems (which are no-out-of-bounds theorems in the same sense)
-in their own property files.  Writes, and reads through checked indexing, are modelled by total functions
-(`Array.setIfInBounds`, `rd`) whose in-range side conditions appear as hypotheses of the C17 / C05 theorems
-and are discharged there from the representation invariants; `intvec_get_in_bounds` /
-`intvec_set_in_bounds` show this for the integer vector.  The summary theorem is therefore named
-`plain_bitvector_api_no_oob_partial`.
+Structures covered, each with a summary theorem for every argument and both modes:
+  * the bit primitives, the plain bitvector with its rank / select supports, `OneIter<T>`, the two-cursor
+    iterators, the integer vector's item access, the memory-mapped views' constructors —
+    `plain_bitvector_api_no_oob_partial`;
+  * the sparse (Elias–Fano) vector — `sparse_api_no_oob_partial` (every vector satisfying the encoding relation:
+    built or loaded; set mode) and `sparse_multiset_api_no_oob_partial`; the builder:
+    `sparse_builder_never_oob`;
+  * the run-length vector — `run_length_api_no_oob_partial` (every accepted builder call history; the conversion
+    `From<RLBuilder>` itself: C03 `conversion_never_faults`);
+  * the wavelet matrix and its core mapping — `wavelet_matrix_api_no_oob_partial` (every matrix satisfying the
+    invariant `WM.Ok`, e.g. every built one).
+These are corollaries of the `= ok …` theorems of Proofs/Sparse, Sparse2, RLQueries, WM: in the model the only
+source of the fault `oob` is an unchecked access with an out-of-range index (`getW`, `tableU`, `selWord`), and a
+fault propagates through every `do` block, so `op … = ok r` says that no out-of-range index is formed anywhere
+inside `op`, in the mode `m` it is stated for (both).  Where a call is outside the documented domain the
+statement is `≠ fault .oob` (sparse `get(i)`, `i ≥ len`: a defined value or the documented panic) or the exact
+panic (wavelet-matrix `get(i)`, `i ≥ len`: `unwrap`).
+
+PARTIAL — why every summary keeps `_partial` in its name.
+  (1) The theorems are about the MODEL: that the Rust code forms the same indices is the correspondence argument,
+      and the real memory accesses (`get_unchecked`, `Vec::load`'s `set_len`, mapped slices) are observed through
+      the bounds hooks in all four build configurations, not proven.
+  (2) Writes, and reads through checked indexing, are modelled by total functions (`Array.setIfInBounds`, `rd`)
+      whose in-range side conditions appear as hypotheses of the C17 / C05 theorems and are discharged there from
+      the representation invariants; `intvec_get_in_bounds` / `intvec_set_in_bounds` show this for the integer
+      vector.
+  (3) Call SEQUENCES: iterators of the plain bitvector are covered under every call history (`next`,
+      `next_back`, `nth k`, `nth_back k`, `len`); the sparse set-bit and all-bits iterators under every `next` /
+      `next_back` history (their `nth` is the default repeated `next`); the sparse zero iterator and the
+      run-length iterators drained by `next` to the end; NOT covered: `next` calls after the first on the
+      iterators returned by `select_zero_iter(r)`, `r < count_zeros` (sparse and run-length), and histories
+      mixing several structures.
+  (4) Serialised / loaded structures are covered through their invariants (`Sparse.Encodes`, `WM.Ok`,
+      `RankSup.Valid`, `SelSup.Valid`), which the loaders establish for bytes the library wrote (C06 / C07); a
+      loaded run-length vector is covered by correspondence only.
 -/
 import Sds.Proofs.Rank
 import Sds.Proofs.Select
@@ -41,6 +67,8 @@ import Sds.Proofs.BitsMore
 import Sds.Proofs.Tables
 import Sds.Proofs.IntVec
 import Sds.Proofs.Glue
+import Sds.Proofs.Glue2
+import Sds.Proofs.Glue5
 
 namespace Sds.C08
 open Sds Outcome IterProofs
@@ -450,6 +478,149 @@ theorem plain_bitvector_api_no_oob_partial (v : RawVec) (hv : v.WF) (hlen : v.le
     exact (predecessor_successor_never_fault _ v _ _ hv hlen rfl hones rfl (build_valid hv hlen) rfl
       (SelSup.build_valid hv hlen .ident) m x calls).2
 
+/-! ### summary for the sparse (Elias–Fano) vector -/
+
+/-- the sparse builder (`SparseBuilder::new` + one `try_set` per value + `build`), set mode: for EVERY list of
+values — sorted or not, in range or not — the outcome is a vector that encodes the list, or an `Err`; never an
+out-of-bounds access, in particular never a write past the `high` / `low` buffers -/
+theorem sparse_builder_never_oob (w n : Nat) (P : List Nat) (hw1 : 1 ≤ w) (hw : w ≤ 63) (hn : n < 2 ^ 64)
+    (hm : P.length < 2 ^ 63) :
+    Sparse.ofValues w n false P ≠ fault .oob ∧
+    ((∃ s, Sparse.ofValues w n false P = ok s ∧ s.Encodes n w P) ∨
+      Sparse.ofValues w n false P = fault (.err .other)) := by
+  by_cases h : sortedStrict P = true ∧ ∀ p ∈ P, p < n
+  · obtain ⟨s, h1, h2⟩ := ofValues_set_ok w n P hw1 hw hn hm h.1 h.2
+    exact ⟨by rw [h1]; exact Glue.ok_not_oob _, Or.inl ⟨s, h1, h2⟩⟩
+  · have h1 := ofValues_set_reject w n P hw1 hw h
+    exact ⟨by rw [h1]; exact Glue.err_not_oob _, Or.inr h1⟩
+
+/-- **C08 for the sparse vector, set mode (partial: see the header).**  For EVERY vector that encodes a
+strictly increasing list `P` of positions below `n` (every built vector, every vector loaded from bytes the
+library wrote), both modes, EVERY argument: `get` never reads out of bounds (and returns a value for every
+`i < len`); `rank`, `rank_zero`, `select`, `select_zero`, `predecessor`, `successor`, `select_iter`,
+`select_zero_iter` return a value; `one_iter()` and the iterators returned by `select_iter`, `predecessor`,
+`successor` return a value under EVERY history of `next` / `next_back` calls, `iter()` likewise; `zero_iter()`
+drained to the end returns its items.  No call forms an out-of-range index into `high` or `low`. -/
+theorem sparse_api_no_oob_partial (s : Sparse) (n w : Nat) (P : List Nat) (hs : s.Encodes n w P)
+    (hstrict : sortedStrict P = true) (m : Mode) :
+    (∀ i, s.get m i ≠ fault .oob) ∧ (∀ i, i < n → ∃ r, s.get m i = ok r) ∧
+    (∀ i, ∃ r, s.rank m i = ok r) ∧ (∀ i, ∃ r, s.rankZero m i = ok r) ∧
+    (∀ r, ∃ o, s.select m r = ok o) ∧ (∀ r, ∃ o, s.selectZero m r = ok o) ∧
+    (∀ r, ∃ z, s.selectZeroIter m r = ok z) ∧
+    (∀ calls r, ∃ it res, s.selectIter m r = ok it ∧ Sparse2.runCalls m s calls it = ok res) ∧
+    (∀ calls x, ∃ it res, s.predecessor m x = ok it ∧ Sparse2.runCalls m s calls it = ok res) ∧
+    (∀ calls x, ∃ it res, s.successor m x = ok it ∧ Sparse2.runCalls m s calls it = ok res) ∧
+    (∀ calls, ∃ res, Sparse2.runCalls m s calls (SpOneIter.full s) = ok res) ∧
+    (∀ calls, ∃ it res, s.iter m = ok it ∧ Sparse2.runSpCalls m s calls it = ok res) ∧
+    (∃ z items, s.zeroIter m = ok z ∧ Sparse2.drainZ m s (n - P.length + 1) z = ok items) := by
+  refine ⟨fun i => Glue5.sparse_get_not_oob hs m i, fun i hi => ⟨_, get_ok hs m i hi⟩,
+    fun i => ⟨_, rank_ok hs m i⟩, fun i => ⟨_, rankZero_ok hs hstrict m i⟩, fun r => ⟨_, select_ok hs m r⟩,
+    fun r => ⟨_, Sparse2.selectZero_spec hs hstrict m r⟩,
+    fun r => Glue5.sparse_selectZeroIter_ok hs hstrict m r,
+    fun calls r => (Glue5.sparse_iter_histories hs m calls).1 r,
+    fun calls x => (Glue5.sparse_iter_histories hs m calls).2.1 x,
+    fun calls x => (Glue5.sparse_iter_histories hs m calls).2.2 x, ?_, ?_, ?_⟩
+  · intro calls
+    obtain ⟨it', _, _, h, _⟩ := Sparse2.runCalls_full hs m calls
+    exact ⟨_, h⟩
+  · intro calls
+    obtain ⟨it, it', h1, h2⟩ := Sparse2.iter_runSpCalls hs m calls
+    exact ⟨it, _, h1, h2⟩
+  · obtain ⟨z, h1, h2⟩ := Sparse2.zeroIter_drain hs hstrict m
+    exact ⟨z, _, h1, h2⟩
+
+/-- **multiset mode (partial).**  The same for a non-decreasing list (duplicates allowed); `rank_zero`, which
+the library does not define there, is `rank` followed by a subtraction: a value or the overflow panic of the
+checked build — never an out-of-bounds access -/
+theorem sparse_multiset_api_no_oob_partial (s : Sparse) (n w : Nat) (P : List Nat) (hs : s.Encodes n w P)
+    (m : Mode) :
+    (∀ i, s.get m i ≠ fault .oob) ∧ (∀ i, i < n → ∃ r, s.get m i = ok r) ∧
+    (∀ i, ∃ r, s.rank m i = ok r) ∧ (∀ i, s.rankZero m i ≠ fault .oob) ∧
+    (∀ r, ∃ o, s.select m r = ok o) ∧
+    (∀ calls r, ∃ it res, s.selectIter m r = ok it ∧ Sparse2.runCalls m s calls it = ok res) ∧
+    (∀ calls x, ∃ it res, s.predecessor m x = ok it ∧ Sparse2.runCalls m s calls it = ok res) ∧
+    (∀ calls x, ∃ it res, s.successor m x = ok it ∧ Sparse2.runCalls m s calls it = ok res) ∧
+    (∀ calls, ∃ res, Sparse2.runCalls m s calls (SpOneIter.full s) = ok res) ∧
+    (∀ calls, ∃ it res, s.iter m = ok it ∧ Sparse2.runSpCalls m s calls it = ok res) := by
+  refine ⟨fun i => Glue5.sparse_get_not_oob hs m i, fun i hi => ⟨_, get_ok hs m i hi⟩,
+    fun i => ⟨_, rank_ok hs m i⟩, fun i => by rw [rankZero_eq hs m i]; exact Glue.subM_not_oob _ _ _,
+    fun r => ⟨_, select_ok hs m r⟩,
+    fun calls r => (Glue5.sparse_iter_histories hs m calls).1 r,
+    fun calls x => (Glue5.sparse_iter_histories hs m calls).2.1 x,
+    fun calls x => (Glue5.sparse_iter_histories hs m calls).2.2 x, ?_, ?_⟩
+  · intro calls
+    obtain ⟨it', _, _, h, _⟩ := Sparse2.runCalls_full hs m calls
+    exact ⟨_, h⟩
+  · intro calls
+    obtain ⟨it, it', h1, h2⟩ := Sparse2.iter_runSpCalls hs m calls
+    exact ⟨it, _, h1, h2⟩
+
+/-! ### summary for the run-length vector -/
+
+/-- **C08 for the run-length vector (partial: see the header).**  After EVERY accepted builder call history
+(`try_set` / `set_len` / `set_bit`, `usize` arguments), for the converted vector, both modes, EVERY argument
+(also `≥ len`, `usize::MAX`): `get`, `rank`, `rank_zero`, `select`, `select_zero`, `select_zero_iter` return a
+value; `predecessor` / `successor` return an iterator whose `next` returns; `select_iter(r)`, `one_iter()`,
+`iter()`, `zero_iter()` and `run_iter()` return their items when drained to the end.  Hence the sample reads
+(`samples.get`), the code-unit reads (`data.get`) and the three `SampleIndex::range` lookups are all in range:
+no block number, sample index or code offset outside the vectors is ever formed. -/
+theorem run_length_api_no_oob_partial (m : Mode) (calls : List RL.BCall) (hc : ∀ c ∈ calls, RL.callArgsOk c)
+    (b : RLBuilder) (hb : RL.runBCalls m calls {} = ok b) (v : RL) (hv : RL.ofBuilder m b = ok v) :
+    (∀ i, ∃ r, v.get m i = ok r) ∧ (∀ i, ∃ r, v.rank m i = ok r) ∧ (∀ i, ∃ r, v.rankZero m i = ok r) ∧
+    (∀ r, ∃ o, v.select m r = ok o) ∧ (∀ r, ∃ o, v.selectZero m r = ok o) ∧
+    (∀ r, ∃ z, v.selectZeroIter m r = ok z) ∧
+    (∀ x, ∃ oi o oi', v.predecessor m x = ok oi ∧ oi.nextQ m v = ok (o, oi')) ∧
+    (∀ x, ∃ oi o oi', v.successor m x = ok oi ∧ oi.nextQ m v = ok (o, oi')) ∧
+    (∀ r, ∃ st items, v.selectIter m r = ok st ∧ RLQ.drainOne m v (v.ones - r + 1) st = ok items) ∧
+    (∃ st items, v.oneIter = ok st ∧ RLQ.drainOne m v (v.ones + 1) st = ok items) ∧
+    (∃ st items, v.iter = ok st ∧ RLQ.drainBits m v (v.len + 1) st = ok items) ∧
+    (∃ st items, v.zeroIter m = ok st ∧ RLQ.drainZero m v (v.countZeros + 1) st = ok items) ∧
+    (∃ it0 res, v.runIter = ok it0 ∧
+      RunIter.collect m v ((maximalRuns (calls.foldl RL.specCall [])).length + 1) it0 = ok res) := by
+  have hsz := (Glue5.blocks_bound_calls m calls hc b hb v hv).2
+  obtain ⟨g, e1, e2, e3⟩ := Glue5.rl_good m calls hc b hb v hv
+  obtain ⟨_, _, _, q4, q5, q6, _, q8, q9, q10, q11⟩ := RLQ.build_queries m calls hc b hb v hv hsz
+  obtain ⟨_, _, it0, e, _, h1, h2, _⟩ := RL.build_iterate_calls m calls hc b hb v hv
+  refine ⟨fun i => ⟨_, q4 i⟩, fun i => ⟨_, q5 i⟩, fun i => ⟨_, q6 i⟩, fun r => ⟨_, q8 r⟩, fun r => ⟨_, q9 r⟩,
+    fun r => (Glue5.rl_selectZeroIter_ok m g r).imp fun z h => h.1, ?_, ?_, ?_, ?_, ?_, ?_, ⟨it0, _, h1, h2⟩⟩
+  · intro x; obtain ⟨oi, oi', a, c⟩ := q11 x; exact ⟨oi, _, oi', a, c⟩
+  · intro x; obtain ⟨oi, oi', a, c⟩ := q10 x; exact ⟨oi, _, oi', a, c⟩
+  · intro r
+    obtain ⟨st, items, a, c, _⟩ := Glue5.rl_selectIter_drain m _ g e2 r (v.ones - r + 1) (by rw [e2]; exact Nat.le_refl _)
+    exact ⟨st, items, a, c⟩
+  · obtain ⟨st, items, a, c, _⟩ := RLQ.build_oneIter m calls hc b hb v hv hsz (v.ones + 1) (Nat.le_refl _)
+    exact ⟨st, items, a, c⟩
+  · obtain ⟨st, a, c⟩ := RLQ.build_iter m calls hc b hb v hv hsz (v.len + 1) (Nat.le_refl _)
+    exact ⟨st, _, a, c⟩
+  · obtain ⟨st, items, a, c, _⟩ := RLQ.build_zeroIter m calls hc b hb v hv hsz (v.countZeros + 1) (Nat.le_refl _)
+    exact ⟨st, items, a, c⟩
+
+/-! ### summary for the wavelet matrix -/
+
+/-- **C08 for the wavelet matrix (partial: see the header).**  For EVERY matrix satisfying the invariant
+`WM.Ok` (every built one: `WM.ofValues_ok_full`; every one loaded from bytes the library wrote), both modes,
+EVERY index, rank and value — past the end, `usize::MAX`, absent, outside the alphabet: `rank`, `select`,
+`inverse_select`, `contains`, `predecessor`, `successor`, the value iterator's `next`, and the core mappings
+`map_down_with` / `map_up_with` return a value; `get` returns the item, or — past the end — panics on the
+`unwrap` of `inverse_select`'s `None`.  No level bit vector, and not the `first` array, is indexed out of range. -/
+theorem wavelet_matrix_api_no_oob_partial (w : WM) (V : List Nat) (width : Nat) (hw : w.Ok V width) (m : Mode) :
+    (∀ i, (∃ x, w.get m i = ok x) ∨ w.get m i = fault (.panic .unwrap)) ∧
+    (∀ i v, ∃ r, w.rank m i v = ok r) ∧ (∀ r v, ∃ o, w.select m r v = ok o) ∧
+    (∀ i, ∃ o, w.inverseSelect m i = ok o) ∧ (∀ v, ∃ c, w.contains v = ok c) ∧
+    (∀ i v, ∃ r, w.predecessor m i v = ok r) ∧ (∀ i v, ∃ r, w.successor m i v = ok r) ∧
+    (∀ v r, ∃ o, w.valueIterNext m v r = ok o) ∧
+    (∀ i v, ∃ p, w.data.mapDownWith m i v = ok p) ∧ (∀ p v, ∃ o, w.data.mapUpWith m p v = ok o) := by
+  refine ⟨fun i => ?_, fun i v => ⟨_, rank_ok_wm hw m i v⟩, fun r v => ⟨_, select_ok_wm hw m r v⟩,
+    fun i => ?_, fun v => ⟨_, contains_ok hw v⟩, fun i v => ⟨_, predecessor_ok hw m i v⟩,
+    fun i v => ⟨_, successor_ok hw m i v⟩, fun v r => ⟨_, valueIterNext_ok hw m v r⟩,
+    fun i v => ⟨_, mapDownWith_ok' hw.core m i v⟩, fun p v => ⟨_, mapUpWith_total hw.core m p v⟩⟩
+  · by_cases h : i < V.length
+    · exact Or.inl ⟨_, get_ok_wm hw m i h⟩
+    · exact Or.inr (get_panic hw m i (Nat.le_of_not_lt h))
+  · by_cases h : i < V.length
+    · exact ⟨_, inverseSelect_ok hw m i h⟩
+    · exact ⟨_, inverseSelect_none hw m i (Nat.le_of_not_lt h)⟩
+
 /-! ### non-vacuity -/
 
 example : (RawVec.ofBits [true, false, true]).WF ∧ (RawVec.ofBits [true, false, true]).len < 2 ^ 64 := by decide
@@ -457,5 +628,19 @@ example : (RankSup.build (RawVec.ofBits [true, false, true])).Valid (RawVec.ofBi
   build_valid (by decide) (by decide)
 example : (IntVec.ofList 3 [5, 1, 2]).WF ∧ 1 < (IntVec.ofList 3 [5, 1, 2]).len := by decide
 example : 1 < popcount 0x5#64 := by decide
+
+/-- the hypotheses of the structure summaries are satisfiable: an encoded sparse vector, an accepted run-length
+call history with its conversion, a built wavelet matrix -/
+example : ∃ s, Sparse.ofValues 2 10 false [0, 5, 9] = ok s ∧ s.Encodes 10 2 [0, 5, 9] :=
+  ofValues_set_ok 2 10 [0, 5, 9] (by decide) (by decide) (by decide) (by decide) (by decide) (by decide)
+example :
+    (do let b ← RL.runBCalls .wrapping [.set 0 2, .bit 4, .set 5 3, .setLen 12] {}
+        let v ← RL.ofBuilder .wrapping b
+        let g ← v.get .wrapping (2 ^ 64 - 1)
+        let r ← v.rank .wrapping (2 ^ 64 - 1)
+        return (v.len, v.blocks, g, r)) = ok (12, 1, false, 6) := by
+  decide +kernel
+example : (WM.ofValues [3, 1, 3, 0]).Ok [3, 1, 3, 0] (widthOf [3, 1, 3, 0]) :=
+  WM.ofValues_ok_full _ (by decide) (by decide)
 
 end Sds.C08
